@@ -270,6 +270,91 @@ func c15(r *core.Run) {
 		}
 		return false
 	})
+	// "the resource's group" is the group of the resource the event was created on: the resource the
+	// query event keeps is a copy of that resource as a whole, or a copy that carries its group
+	{
+		recv := qev.Params[0]
+		nRes, bad := 0, ""
+		for _, f2 := range p.Helpers(qev) {
+			for _, in := range instrsOf(f2) {
+				st, ok := in.(*ssa.Store)
+				if !ok {
+					continue
+				}
+				f, ok := core.FieldOf(st.Addr)
+				if !ok || !strings.HasSuffix(f.Struct, "queryEvent") || core.TypeName(st.Val.Type()) != "resource" {
+					continue
+				}
+				nRes++
+				ld, isLd := st.Val.(*ssa.UnOp)
+				if isLd && core.Strip(ld.X) == ssa.Value(recv) {
+					continue // r: *r
+				}
+				// a literal: its group member must be the receiver's
+				okGroup := false
+				if isLd {
+					if al, isAl := ld.X.(*ssa.Alloc); isAl && al.Referrers() != nil {
+						for _, rf := range *al.Referrers() {
+							fa, isFA := rf.(*ssa.FieldAddr)
+							if !isFA || fa.Referrers() == nil {
+								continue
+							}
+							if g, ok := core.FieldOf(fa); !ok || g.Name != "group" {
+								continue
+							}
+							for _, r2 := range *fa.Referrers() {
+								if s2, ok := r2.(*ssa.Store); ok && s2.Addr == ssa.Value(fa) {
+									if lf, ok := core.LoadedField(s2.Val); ok && lf.Struct == "resource" && lf.Name == "group" {
+										okGroup = true
+									}
+								}
+							}
+						}
+					}
+				}
+				if !okGroup {
+					bad = p.InstrPos(st)
+				}
+			}
+		}
+		if nRes == 0 {
+			// the resource member filled in member by member (&queryEvent{r: resource{rname: ..., ...}})
+			members := map[string]bool{}
+			groupOK := false
+			for _, f2 := range p.Helpers(qev) {
+				for _, in := range instrsOf(f2) {
+					st, ok := in.(*ssa.Store)
+					if !ok {
+						continue
+					}
+					fa, ok := st.Addr.(*ssa.FieldAddr)
+					if !ok {
+						continue
+					}
+					outer, ok := fa.X.(*ssa.FieldAddr)
+					if !ok {
+						continue
+					}
+					of, ok1 := core.FieldOf(outer)
+					inf, ok2 := core.FieldOf(fa)
+					if !ok1 || !ok2 || !strings.HasSuffix(of.Struct, "queryEvent") || inf.Struct != "resource" {
+						continue
+					}
+					nRes++
+					members[inf.Name] = true
+					if inf.Name == "group" {
+						if lf, ok := core.LoadedField(st.Val); ok && lf.Struct == "resource" && lf.Name == "group" {
+							groupOK = true
+						}
+					}
+				}
+			}
+			if nRes > 0 && !groupOK {
+				bad = "member by member " + strings.Join(core.SortedKeys(members), ",") + " - without the group"
+			}
+		}
+		r.Check(nRes > 0 && bad == "", "G1", core.FuncName(qev), "query-event-resource-carries-the-group", p.Pos(qev.Pos()), "the query event keeps a copy of the resource including its group", "the resource kept in the query event (stored "+bad+") is not the resource with its group: the listener and the expiry queue under an empty group id, i.e. every query callback becomes an independent work item - callbacks of one query event overlap each other, the resource's handlers and the final nil call")
+	}
 	exp := methodNamed(p, "", "Service", "queryEventExpire")
 	if exp == nil {
 		r.Unres("G1", "queryEventExpire", "missing")
